@@ -19,7 +19,7 @@ RULE = (
     "Non-trivial = at least one fault, forged datagram or concurrent neighbour affected the history; distinct = hash of the sequence of (event kind, actor, message class) of the wire history"
 )
 ASSUMPTIONS = ["default TransportTuning (ACK_TIMEOUT 2, MAX_RETRANSMIT 4) for all requests", "forged tokens are only taken from datagrams already seen on the wire"]
-REQUIRED_MONITORS = {"request_outcome": 500, "result_is_first_matching": 300, "unmatched_con_rst": 50, "matched_con_ack": 30, "token_uniqueness": 100, "forged_wrong_source_not_delivered": 50, "failure_explained": 100, "token_boundary_crossed": 20}
+REQUIRED_MONITORS = {"request_outcome": 500, "result_is_first_matching": 300, "unmatched_con_rst": 50, "matched_con_ack": 30, "token_uniqueness": 100, "forged_wrong_source_not_delivered": 50, "failure_explained": 100, "token_boundary_crossed": 20, "bystander": 12}
 
 SERVERS = [("10.0.0.1", 5683), ("10.0.0.1", 5684), ("10.0.0.3", 5683), ("10.0.0.4", 7777)]
 BEHAVIOURS = ["piggy", "piggy", "sep-con", "sep-non", "late", "never", "rst", "icmp"]
@@ -466,6 +466,101 @@ def api_key(x, exc):
     return "%s/%s" % (x["spec"]["api"], type(exc).__name__)
 
 
+def run_bystander(kind, variant, seed, rep, case):
+    """Requests of an unusual kind are outstanding while ordinary requests to other endpoints run into a transport
+    error, a time-out and a normal response: each of the ordinary ones completes exactly once, at the instant its
+    cause occurs, with a library error or its response.
+    kind 'multicast': an unanswered request to a multicast group is outstanding (keyed without a remote).
+    kind 'obs-cancelled': a block-wise (default API) observe request whose observation the application cancelled
+    before the (non-observable) response arrives.
+    kind 'block1-in-response': the response to a plain request carries a Block1 option."""
+    from harness import scenario, simnet, refcodec as rc
+    import asyncio
+    import aiocoap
+    from aiocoap import error
+
+    box = {}
+
+    async def main(loop):
+        net = simnet.SimNet(loop)
+        C = simnet.addr("10.0.0.2", 40001)
+
+        def answering(peer, src, m, raw):
+            if m is None or not rc.is_request(m.code):
+                return
+            path = rc.opt1(m, 11) or b""
+            opts = ()
+            if path == b"b1":
+                opts = ((27, rc.block_bytes(0, False, 2)),)  # a Block1 option nobody asked for
+            d = 0.5 if path == b"late" else 0.0
+            loop.call_later(d, peer.send, src, rc.Msg(rc.ACK if m.type == rc.CON else rc.NON, rc.c(2, 5), m.mid if m.type == rc.CON else peer.next_mid(), m.token, opts, b"ok-" + path))
+
+        simnet.RawPeer(net, "10.0.0.1", 5683, answering)
+        simnet.RawPeer(net, "10.0.0.3", 5683)  # silent
+        icmp_peer = simnet.RawPeer(net, "10.0.0.4", 5683, lambda peer, src, m, raw: net.inject_error(C, peer.addr, 111))
+        cli = await simnet.make_context(net, "10.0.0.2", 40001, None, server=False)
+        out = {}
+
+        def go(name, msg, **kw):
+            rq = cli.request(msg, **kw)
+            rq.response.add_done_callback(lambda f: out.setdefault(name, (loop.time(), None if f.cancelled() else f.exception(), None if (f.cancelled() or f.exception()) else bytes(f.result().payload))))
+            return rq
+
+        if kind == "multicast":
+            for k in range(variant + 1):
+                go("mc%d" % k, aiocoap.Message(code=aiocoap.GET, uri="coap://[ff02::fd]/x%d" % k))
+            await asyncio.sleep(0.1)
+        t0 = loop.time()
+        go("icmp", aiocoap.Message(code=aiocoap.GET, uri="coap://10.0.0.4/a"), handle_blockwise=False)
+        go("silent", aiocoap.Message(code=aiocoap.GET, uri="coap://10.0.0.3/b"), handle_blockwise=bool(variant % 2))
+        go("ok", aiocoap.Message(code=aiocoap.GET, uri="coap://10.0.0.1/c"), handle_blockwise=False)
+        if kind == "obs-cancelled":
+            rq = go("obs", aiocoap.Message(code=aiocoap.GET, uri="coap://10.0.0.1/late", observe=0), handle_blockwise=bool(variant % 2) or True)
+            rq.observation.register_errback(lambda e: None) if variant >= 2 else None
+            await asyncio.sleep(0.1)
+            rq.observation.cancel()
+        if kind == "block1-in-response":
+            go("b1", aiocoap.Message(code=[aiocoap.GET, aiocoap.PUT][variant % 2], uri="coap://10.0.0.1/b1", payload=b"" if variant % 2 == 0 else b"x"), handle_blockwise=True)
+        await asyncio.sleep(120.0)
+        box.update(net=net, out=dict(out), t0=t0)
+        await cli.shutdown()
+        await asyncio.sleep(1.0)
+        box["after"] = dict(out)
+        return True
+
+    res = scenario.run(main, seed)
+    if not res.ok:
+        if res.horizon:
+            rep.inconc("horizon in bystander scenario")
+        else:
+            rep.violation("bystander/%s/scenario-failed" % kind, "scenario did not complete: hang=%r error=%r" % (res.hang, res.error), {"kind": kind, "variant": variant}, case)
+        return
+    rep.monitor("bystander")
+    out, after = box["out"], box["after"]
+    w = lambda **kw: dict(kind=kind, variant=variant, outcomes={k: (round(v[0], 4), repr(v[1]), v[2]) for k, v in after.items()}, wire=box["net"].dump(30), loop=res.loop_exceptions[:2], **kw)
+    exp = {"icmp": lambda v: isinstance(v[1], error.NetworkError) and v[0] - box["t0"] < 0.1, "silent": lambda v: isinstance(v[1], error.NetworkError) and 60 < v[0] - box["t0"] < 100, "ok": lambda v: v[1] is None and v[2] == b"ok-c"}
+    for name, pred in exp.items():
+        if name not in out:
+            rep.violation("bystander/%s/request-never-completed/%s" % (kind, name), "with a request of kind '%s' outstanding, an ordinary request (%s) neither completed nor failed" % (kind, name), w(), case)
+            return
+        if not pred(out[name]):
+            rep.violation("bystander/%s/wrong-outcome/%s" % (kind, name), "with a request of kind '%s' outstanding, an ordinary request (%s) ended in another way or at another time than its cause explains" % (kind, name), w(), case)
+            return
+    for name, v in after.items():
+        if v[1] is not None and not isinstance(v[1], error.Error):
+            rep.violation("bystander/%s/non-library-exception/%s/%s" % (kind, name, type(v[1]).__name__), "a request failed with an exception not derived from the library's error base class", w(), case)
+            return
+    if kind == "multicast" and any(("mc%d" % k) not in after or not isinstance(after["mc%d" % k][1], error.LibraryShutdown) for k in range(variant + 1)):
+        rep.violation("bystander/multicast/not-ended-by-shutdown", "an unanswered multicast request did not end with the shutdown error when its context shut down", w(), case)
+    if kind == "obs-cancelled" and ("obs" not in after or after["obs"][1] is not None or after["obs"][2] != b"ok-late"):
+        rep.violation("bystander/obs-cancelled/request-not-completed-with-its-response", "an observe request whose observation the application had cancelled did not complete with the (matching) response", w(), case)
+    if kind == "block1-in-response" and ("b1" not in after or not (after["b1"][1] is None or isinstance(after["b1"][1], error.Error))):
+        rep.violation("bystander/block1-in-response/not-a-library-outcome", "a response carrying an unsolicited Block1 option did not lead to the response or a library error", w(), case)
+    if res.loop_exceptions:
+        rep.violation("bystander/%s/loop-exception/%s" % (kind, res.loop_exceptions[0].get("exc_type")), "an exception reached the event loop", w(), case)
+    rep.case(("bystander", kind, variant), nontrivial=True)
+
+
 def run_shard(shard, rep, only=None):
     from harness import vloop
 
@@ -481,3 +576,12 @@ def run_shard(shard, rep, only=None):
         run_history(h, shard["seed"] * 65537 + n, rep, case)
         if n < 1 and shard["index"] == 0:
             rep.sample({"class": "history", "history": h})
+    by = [(k, v) for k in ("multicast", "obs-cancelled", "block1-in-response") for v in range(4)]
+    for j, (kind, variant) in enumerate(by):
+        if j % shard["of"] != shard["index"] % len(by) and shard["of"] >= len(by):
+            if j != shard["index"] % len(by):
+                continue
+        case = ["bystander", j]
+        if only is not None and only != case:
+            continue
+        run_bystander(kind, variant, shard["seed"] * 977 + j, rep, case)
